@@ -25,7 +25,9 @@ INVARIANTS = ["XP_OnlySurveyedServersAreAsked", "XP_ShareOncePerRound", "XP_NoNe
 # deviation -> invariants one of which TLC has to report
 EXPECTED = {"keep_stale_buckets": {"XP_OneTrackerPerShare", "XP_NeverDies", "XP_UnusedAbortedBeforeResult", "XP_QuiescentNoOrphanBuckets"},
             "late_answer_leak": {"XP_UnusedAbortedBeforeResult", "XP_QuiescentNoOrphanBuckets"},
-            "count_unrenewed": {"XP_HappinessOfRenewedShares"}}
+            "count_unrenewed": {"XP_HappinessOfRenewedShares"},
+            "refuser_stays_writable+stop_without_improvement": {"XP_ReachableSucceeds"},
+            "refuser_stays_writable": {"XP_RoundsBounded"}}
 
 
 def consts(servers=S3, order="Order3", n=2, k=1, happy=2, modes=(W, FULL), maxpre=0, faults=1, dev=(), best=False):
@@ -77,12 +79,16 @@ def run(ctx):
                      ("4 servers N=3 k=2", consts(servers=S4, order="Order4", n=3, k=2, happy=3, modes=(W, FULL), maxpre=0, faults=1, best=True))]
     for i, (name, c) in enumerate(intended):
         ctx.constants["MCUploadProtocol_%d (%s)" % (i, name)] = dict(c)
-        # action coverage (slow) is collected on one small configuration only
-        ctx.mc("immutable/MCUploadProtocol", mc_cfg(c), name="MC upload protocol: %s" % name, timeout=3000, coverage=(i == 1))
+        # action coverage (slow on the larger configurations) is collected on the first configuration
+        ctx.mc("immutable/MCUploadProtocol", mc_cfg(c), name="MC upload protocol: %s" % name, timeout=3000, coverage=(i == 0))
     # ---- design level: each named deviation of the implementation breaks a stated invariant --------------------
     devs = [("keep_stale_buckets", consts(modes=(W, FULL), maxpre=0, faults=0, dev=("keep_stale_buckets",))),
             ("late_answer_leak", consts(modes=(W,), maxpre=0, faults=1, dev=("late_answer_leak",))),
-            ("count_unrenewed", consts(modes=(W,), maxpre=1, faults=1, dev=("count_unrenewed",)))]
+            ("count_unrenewed", consts(modes=(W,), maxpre=1, faults=1, dev=("count_unrenewed",))),
+            ("refuser_stays_writable+stop_without_improvement",
+             consts(modes=(W, FULL), maxpre=0, faults=0, best=True, dev=("refuser_stays_writable", "stop_without_improvement")))]
+    if not q:
+        devs.append(("refuser_stays_writable", consts(modes=(W, FULL), maxpre=0, faults=0, best=True, dev=("refuser_stays_writable",))))
     for dev, c in ([] if os.environ.get("VERIF_SKIP_MC") else devs):     # (mutant sweeps skip the Spec-only runs)
         r = ctx.mc("immutable/MCUploadProtocol", mc_cfg(c), name="MC deviation %s" % dev, expect_ok=False, timeout=3000, coverage=False)
         hit = set(r.violated) & EXPECTED[dev]
